@@ -251,6 +251,7 @@ Fixpoint lex_loop (fuel : nat) (s : text) (depth : nat) : lres :=
    for a single line, after the "remove the added NEWLINE" hack *)
 Definition generated_tokens (s : text) : lres :=
   let '(indent, body) := span is_blank s in
+  if negb (forallb in_domain_char s) then LOutOfDomain else
   match lex_loop (S (length s)) body 0 with
   | LOk ts =>
       match ts with
